@@ -112,6 +112,49 @@ def _solve_text(name, smt2, timeout_ms, use_cvc5):
     return name, r, model, backend, total
 
 
+def _check_direct(hyps, goal, timeout_ms, tactic=None):
+    t0 = time.time()
+    s = z3.Tactic(tactic).solver() if tactic else z3.Solver()
+    s.set('timeout', timeout_ms)
+    for h in hyps:
+        s.add(h)
+    s.add(z3.Not(goal))
+    r = s.check()
+    model = None
+    if r == z3.sat:
+        m = s.model()
+        model = {d.name(): _val(m[d]) for d in m.decls() if d.arity() == 0}
+    return str(r), model, time.time() - t0
+
+
+def _solve_direct(i, ob, timeout_ms, use_cvc5):
+    """In-process solving on the z3 objects (no SMT-LIB round trip)."""
+    total = 0.0
+    r, model, backend = 'unknown', None, 'z3'
+    for tactic, tmo in [(None, min(timeout_ms, 3000)), ('qfnra-nlsat', timeout_ms), (None, timeout_ms)]:
+        try:
+            r, model, dt = _check_direct(ob.hyps, ob.goal, tmo, tactic)
+        except z3.Z3Exception:
+            r, model, dt = 'unknown', None, 0.0
+        total += dt
+        backend = 'z3' if tactic is None else 'z3/nlsat'
+        if r != 'unknown':
+            break
+    if r == 'unknown':
+        defs = [h for h, k in zip(ob.hyps, ob.hyp_kinds) if k == 'def']
+        if len(defs) < len(ob.hyps) and ob.meta.get('slice', True):
+            r2, _, dt = _check_direct(defs, ob.goal, timeout_ms, 'qfnra-nlsat')
+            total += dt
+            if r2 == 'unsat':
+                return i, 'unsat', None, 'z3/nlsat+sliced', total
+    if r == 'unknown' and use_cvc5:
+        r2, m2, dt = _cvc5_check(_to_smt2(ob.hyps, ob.goal), timeout_ms)
+        total += dt
+        if r2 == 'unsat':
+            r, backend = r2, 'cvc5'
+    return i, r, model, backend, total
+
+
 def discharge(obligations, timeout_ms=20000, workers=None, use_cvc5=True):
     """Solve all obligations (parallel).  Sets status/model/backend/seconds on each."""
     workers = workers or min(16, max(1, os.cpu_count() or 1))
@@ -131,6 +174,9 @@ def discharge(obligations, timeout_ms=20000, workers=None, use_cvc5=True):
             if ok:
                 ob.status, ob.backend, ob.seconds = 'proved', 'ring(sympy)', _t.time() - t0
                 continue
+        if workers == 1:
+            jobs.append((i, None, ob.meta.get('timeout_ms', timeout_ms), use_cvc5, None))
+            continue
         sliced = None
         defs = [h for h, k in zip(ob.hyps, ob.hyp_kinds) if k == 'def']
         if len(defs) < len(ob.hyps) and ob.meta.get('slice', True):
@@ -138,7 +184,9 @@ def discharge(obligations, timeout_ms=20000, workers=None, use_cvc5=True):
         jobs.append((i, _to_smt2(ob.hyps, ob.goal), ob.meta.get('timeout_ms', timeout_ms), use_cvc5, sliced))
     if not jobs:
         return obligations
-    if len(jobs) == 1 or workers == 1:
+    if workers == 1:
+        results = [_solve_direct(i, obligations[i], j[2], use_cvc5) for i, j in zip([j[0] for j in jobs], jobs)]
+    elif len(jobs) == 1:
         results = [_solve_one(j) for j in jobs]
     else:
         with ProcessPoolExecutor(max_workers=min(workers, len(jobs))) as pool:
